@@ -633,68 +633,18 @@ func c18Check(c c18Case, rep c17Rep) error {
 	}
 
 	// -- reference semantics at element boundaries
-	dead := map[string]bool{}    // removed by pruning (tombstones and everything below them)
-	topTomb := map[string]bool{} // tombstones not below another tombstone
-	textual := false             // trigger of F-prune-textual-prefix
+	ref := c18Reference(all, func(p, q c18Parsed) bool { return c18Covers(p.es, q.es) })
+	textual := false // trigger of F-prune-textual-prefix
 	for _, q := range all {
-		covered := false
 		for _, p := range all {
-			if !p.pv.Deleted || p.pv.Path == q.pv.Path {
-				continue
-			}
-			cov := c18Covers(p.es, q.es)
-			covered = covered || cov
-			if strings.HasPrefix(q.pv.Path, p.pv.Path) && !cov {
+			if p.pv.Deleted && p.pv.Path != q.pv.Path && strings.HasPrefix(q.pv.Path, p.pv.Path) && !c18Covers(p.es, q.es) {
 				textual = true // Q continues P's text inside an element name: /a/b vs /a/bc, /a/b-x
 			}
-		}
-		if q.pv.Deleted || covered {
-			dead[q.pv.Path] = true
-		}
-		if q.pv.Deleted && !covered {
-			topTomb[q.pv.Path] = true
-		}
-	}
-	wantPruned := map[bool]map[string]bool{false: {}, true: {}}
-	expect := map[string]*c17Val{} // the leaves the document must hold (nil: key leaf implied by a path)
-	nLive := 0
-	for _, q := range all {
-		if !dead[q.pv.Path] {
-			wantPruned[false][q.pv.Path] = false
-			wantPruned[true][q.pv.Path] = false
-			expect[q.pv.Path] = q.pv.Val
-			nLive++
-		}
-		if topTomb[q.pv.Path] {
-			wantPruned[true][q.pv.Path] = true
-		}
-	}
-	entries := map[string]map[string]bool{} // list instance -> its live entries (key tuple text)
-	for _, q := range all {
-		if dead[q.pv.Path] {
-			continue
-		}
-		for i, e := range q.es {
-			if len(e.Keys) == 0 {
-				continue
-			}
-			ent := c18Render(q.es[:i+1])
-			for _, kv := range e.Keys {
-				kp := ent + "/" + kv.K
-				if _, explicit := expect[kp]; !explicit {
-					expect[kp] = nil
-				}
-			}
-			inst := c18Render(q.es[:i]) + "/" + e.Name
-			if entries[inst] == nil {
-				entries[inst] = map[string]bool{}
-			}
-			entries[inst][e.String()] = true
 		}
 	}
 
 	// -- classes and the non-trivial rule
-	c18Classify(all, dead, entries, rep)
+	c18Classify(all, ref.dead, ref.entries, rep)
 	if textual {
 		rep.Class("trigger:textual-prefix-sibling-of-a-tombstone")
 	}
@@ -711,39 +661,113 @@ func c18Check(c c18Case, rep c17Rep) error {
 		}
 		pvs = append(pvs, pv)
 	}
-	// a failure on an input matching the listed finding's trigger is the listed finding (the case ends there)
-	fail := func(format string, args ...any) error {
-		if textual && vstat.IsKnown(prop, c18FPrune) {
-			rep.Known(c18FPrune, "pruning matches tombstones with strings.HasPrefix: a sibling whose name continues the tombstoned path's text (/a/b vs /a/bc, /a/b-x) is removed too")
-			return nil
+	var got c18Got
+	for i, leaveTop := range []bool{false, true} {
+		var err error
+		if got.pruned[i], err = c18SetOf(ops.prune(pvs, leaveTop)); err != nil {
+			return fmt.Errorf("PrunePathValues(leaveTopDeletedPaths=%v): %v", leaveTop, err)
 		}
-		return fmt.Errorf(format, args...)
-	}
-	pruners := []struct {
-		name string
-		fn   func([]c17PV, bool) []c18PD
-	}{{"PrunePathValues", ops.prune}, {"PrunePathMap", ops.pruneMap}}
-	for _, leaveTop := range []bool{false, true} {
-		for _, pr := range pruners {
-			got, err := c18SetOf(pr.fn(pvs, leaveTop))
-			if err != nil {
-				return fmt.Errorf("%s(leaveTopDeletedPaths=%v): %v", pr.name, leaveTop, err)
-			}
-			if d := c18DiffSets(got, wantPruned[leaveTop]); d != "" {
-				return fail("%s(leaveTopDeletedPaths=%v) differs from pruning at element boundaries: %s", pr.name, leaveTop, d)
-			}
+		if got.prunedMap[i], err = c18SetOf(ops.pruneMap(pvs, leaveTop)); err != nil {
+			return fmt.Errorf("PrunePathMap(leaveTopDeletedPaths=%v): %v", leaveTop, err)
 		}
 	}
-	doc, err := ops.build(pvs, c.RFC)
-	if err != nil {
-		return fmt.Errorf("BuildTree failed: %v", err)
+	var err2 error
+	if got.doc, err2 = ops.build(pvs, c.RFC); err2 != nil {
+		return fmt.Errorf("BuildTree failed: %v", err2)
 	}
-	flat, err := c18FlattenJSON(doc, schema)
+	strict := c18Compare(prop, got, ref, schema, c.RFC, rep)
+	if strict == nil {
+		return nil
+	}
+	// A failure on an input matching the listed finding's trigger: the real code must then behave exactly like
+	// the element-boundary reference with "covers" replaced by strings.HasPrefix (the finding, nothing else).
+	if textual && vstat.IsKnown(prop, c18FPrune) {
+		buggy := c18Reference(all, func(p, q c18Parsed) bool { return strings.HasPrefix(q.pv.Path, p.pv.Path) })
+		if err := c18Compare(prop, got, buggy, schema, c.RFC, rep); err != nil {
+			return fmt.Errorf("%v\n(and not explained by %s alone: %v)", strict, c18FPrune, err)
+		}
+		rep.Known(c18FPrune, "pruning matches tombstones with strings.HasPrefix: a sibling whose name continues the tombstoned path's text (/a/b vs /a/bc, /a/b-x) is removed too")
+		return nil
+	}
+	return strict
+}
+
+// c18Ref is what pruning and the document must be, for a given "tombstone P covers path Q" relation.
+type c18Ref struct {
+	dead    map[string]bool            // removed by pruning (tombstones and everything below them)
+	pruned  [2]map[string]bool         // [leaveTopDeletedPaths] path -> deleted flag
+	expect  map[string]*c17Val         // leaves of the document (nil: key leaf implied by a path)
+	entries map[string]map[string]bool // list instance -> its live entries
+	nLive   int
+}
+
+type c18Got struct {
+	pruned, prunedMap [2]map[string]bool
+	doc               []byte
+}
+
+func c18Reference(all []c18Parsed, covers func(p, q c18Parsed) bool) c18Ref {
+	ref := c18Ref{dead: map[string]bool{}, expect: map[string]*c17Val{}, entries: map[string]map[string]bool{}}
+	ref.pruned[0], ref.pruned[1] = map[string]bool{}, map[string]bool{}
+	for _, q := range all {
+		covered := false
+		for _, p := range all {
+			if p.pv.Deleted && p.pv.Path != q.pv.Path && covers(p, q) {
+				covered = true
+			}
+		}
+		switch {
+		case q.pv.Deleted && !covered: // a top-most tombstone
+			ref.dead[q.pv.Path] = true
+			ref.pruned[1][q.pv.Path] = true
+		case q.pv.Deleted || covered:
+			ref.dead[q.pv.Path] = true
+		default:
+			ref.pruned[0][q.pv.Path] = false
+			ref.pruned[1][q.pv.Path] = false
+			ref.expect[q.pv.Path] = q.pv.Val
+			ref.nLive++
+		}
+	}
+	for _, q := range all {
+		if ref.dead[q.pv.Path] {
+			continue
+		}
+		for i, e := range q.es {
+			if len(e.Keys) == 0 {
+				continue
+			}
+			ent := c18Render(q.es[:i+1])
+			for _, kv := range e.Keys {
+				if _, explicit := ref.expect[ent+"/"+kv.K]; !explicit {
+					ref.expect[ent+"/"+kv.K] = nil
+				}
+			}
+			inst := c18Render(q.es[:i]) + "/" + e.Name
+			if ref.entries[inst] == nil {
+				ref.entries[inst] = map[string]bool{}
+			}
+			ref.entries[inst][e.String()] = true
+		}
+	}
+	return ref
+}
+
+func c18Compare(prop string, got c18Got, ref c18Ref, schema map[string][]string, rfc bool, rep c17Rep) error {
+	for i, leaveTop := range []bool{false, true} {
+		if d := c18DiffSets(got.pruned[i], ref.pruned[i]); d != "" {
+			return fmt.Errorf("PrunePathValues(leaveTopDeletedPaths=%v) differs from pruning at element boundaries: %s", leaveTop, d)
+		}
+		if d := c18DiffSets(got.prunedMap[i], ref.pruned[i]); d != "" {
+			return fmt.Errorf("PrunePathMap(leaveTopDeletedPaths=%v) differs from pruning at element boundaries: %s", leaveTop, d)
+		}
+	}
+	flat, err := c18FlattenJSON(got.doc, schema)
 	if err != nil {
-		return fail("the document is not the image of a configuration: %v\n%s", err, doc)
+		return fmt.Errorf("the document is not the image of a configuration: %v\n%s", err, got.doc)
 	}
 	var diffs []string
-	for p, want := range expect {
+	for p, want := range ref.expect {
 		jv, ok := flat[p]
 		if !ok {
 			diffs = append(diffs, "missing leaf "+p)
@@ -756,23 +780,58 @@ func c18Check(c c18Case, rep c17Rep) error {
 			}
 			continue
 		}
-		if err := c17CheckJSON(prop, *want, jv, c.RFC, rep); err != nil {
+		if err := c17CheckJSON(prop, *want, jv, rfc, rep); err != nil {
 			diffs = append(diffs, fmt.Sprintf("%s = %s: %v", p, want, err))
 		}
 	}
 	for p, jv := range flat {
-		if _, ok := expect[p]; !ok {
+		if _, ok := ref.expect[p]; !ok {
 			diffs = append(diffs, fmt.Sprintf("extra leaf %s = %v", p, jv))
 		}
 	}
 	if len(diffs) > 0 {
 		sort.Strings(diffs)
-		return fail("flatten(BuildTree) differs from the live leaves: %s\n%s", strings.Join(diffs, "; "), doc)
+		return fmt.Errorf("flatten(BuildTree) differs from the live leaves: %s\n%s", strings.Join(diffs, "; "), got.doc)
 	}
-	if nLive == 0 && len(flat) != 0 {
-		return fmt.Errorf("no live leaf but the document is %s", doc)
+	// one array entry per distinct key tuple (the flattener already refused duplicates)
+	wantEntries := 0
+	for _, ents := range ref.entries {
+		wantEntries += len(ents)
+	}
+	if n := c18CountEntries(got.doc); n != wantEntries {
+		return fmt.Errorf("the document holds %d list entries, the paths name %d distinct key tuples\n%s", n, wantEntries, got.doc)
+	}
+	if ref.nLive == 0 && len(flat) != 0 {
+		return fmt.Errorf("no live leaf but the document is %s", got.doc)
 	}
 	return nil
+}
+
+// c18CountEntries counts the objects that sit directly inside arrays (= list entries) anywhere in the document.
+func c18CountEntries(doc []byte) int {
+	var root any
+	if json.Unmarshal(doc, &root) != nil {
+		return -1
+	}
+	var walk func(n any, inArray bool) int
+	walk = func(n any, inArray bool) int {
+		c := 0
+		switch t := n.(type) {
+		case map[string]any:
+			if inArray {
+				c++
+			}
+			for _, v := range t {
+				c += walk(v, false)
+			}
+		case []any:
+			for _, v := range t {
+				c += walk(v, true)
+			}
+		}
+		return c
+	}
+	return walk(root, false)
 }
 
 func c18Classify(all []c18Parsed, dead map[string]bool, entries map[string]map[string]bool, rep c17Rep) {
